@@ -285,10 +285,13 @@ package statedb
 //@ func (*writeTxnState).addDeleteTracker
 //@   property C02 C06
 //@   flag nosafety
+//@   flag nilcheck=txn
 //@   flag assumepre=the-tracker-tree-of-a-table-entry-is-a-well-formed-part.Tree
 //@   flag noclose
 //@   requires txn != nil ==> 0 <= tposOf(meta) && tposOf(meta) < len(txn.tableEntries) && txn.tableEntries[tposOf(meta)] != nil && txn.tableEntries[tposOf(meta)].deleteTrackers != nil
 //@   atstore Tree requires @shared-tracker-tree-not-written-in-place fresh($p)
+//@   ensures @closed txn == nil ==> result == ErrTransactionClosed
+//@   ensures @notlocked txn != nil && !old(txn.tableEntries[tposOf(meta)].locked) ==> result != nil
 //@   ensures @private-new-tree txn != nil && result == nil ==> fresh(txn.tableEntries[tposOf(meta)].deleteTrackers)
 //@   ensures @rejected-leaves-entry-alone txn != nil && result != nil ==> txn.tableEntries[tposOf(meta)].deleteTrackers == old(txn.tableEntries[tposOf(meta)].deleteTrackers)
 
@@ -730,3 +733,21 @@ package statedb
 //@ func NewWatchSet
 //@   property C20
 //@   ensures @empty result != nil && fresh(result) && result.chans != nil && fresh(result.chans) && (forall c ptr :: !has(result.chans, c))
+
+// Creating a change iterator (C07, C08): the delete tracker is registered, it starts at the table
+// revision seen by the creating transaction (deletions committed later are retained for it,
+// earlier ones are not observed), and the iterator is primed from that transaction.
+//@ spec revAtCreation(tag mathint) mathint
+//@ func (*deleteTracker).setRevision
+//@   trusted
+//@   modifies H_statedb_deleteTracker_* GH_stores GH_lastStored
+//@ func (*genTable).Changes returns (it, err)
+//@   property C07 C08
+//@   flag nosafety
+//@   maypanic
+//@   flag assumepre=transaction-table-entries-well-formed
+//@   aftercall (*genTable).Revision@1 assume revAtCreation(1) == result
+//@   atcall (*deleteTracker).setRevision@1 requires @tracker-starts-at-the-current-revision $1 == revAtCreation(1)
+//@   mustcall setRevision@1 when @tracker-revision-set true
+//@   mustcall addDeleteTracker@1 when @tracker-registered true
+//@   mustcall refresh@1 when @iterator-primed err == nil
